@@ -280,6 +280,96 @@ def renamed_layouts(ctx: Ctx, n: int):
                          f"({len(rep)} reports)", case)
 
 
+def delete_at(datum, path):
+    head, rest = path[0], path[1:]
+    out = dict(datum)
+    if rest:
+        out[head] = delete_at(datum[head], rest)
+    else:
+        del out[head]
+    return out
+
+
+def flattened_multi_fault(ctx: Ctx, n: int):
+    """name_mapping layouts that spread the fields of ONE model over several nested mappings (several dict crowns inside one
+    generated loader); every non-empty subset of fields is made invalid at once - a wrong value at the leaf, or the required key
+    missing. ALL must report every invalid leaf exactly once at its outer path (missing keys: one NoRequiredFieldsLoadError per
+    mapping, naming exactly the keys missing there); FIRST exactly one of them; DISABLE attaches no trail."""
+    from dataclasses import make_dataclass
+
+    from adaptix import DebugTrail, Retort, name_mapping
+    from adaptix.load_error import LoadError, NoRequiredFieldsLoadError
+    from adaptix.struct_trail import get_trail
+    rng = ctx.rng
+    prefixes = [(), (), ("n1",), ("n1", "n2"), ("m1",), ("n1", "k3"), ("m1", "m2", "m3")]
+    for i in range(n):
+        k = rng.randint(2, 5)
+        names = [f"f{j}" for j in range(k)]
+        cls = make_dataclass(f"FL{i}", [(nm, int) for nm in names])
+        paths = {nm: (*rng.choice(prefixes), nm if rng.random() < 0.7 else f"key-{nm}") for nm in names}
+        mapping = {nm: (p if len(p) > 1 else p[0]) for nm, p in paths.items() if p != (nm,)}
+        retorts = {m: Retort(recipe=[name_mapping(cls, map=mapping)], debug_trail=m) for m in DebugTrail}
+        good = retorts[DebugTrail.ALL].dump(cls(**{nm: j for j, nm in enumerate(names)}))
+        for _ in range(4):
+            faulty = rng.sample(names, rng.randint(1, k))
+            kinds = {nm: rng.choice(["wrong", "missing"]) for nm in faulty}
+            datum, bads = good, {}
+            for nm, kind in kinds.items():
+                if kind == "wrong":
+                    bads[nm] = Bad()
+                    datum = replace_at(datum, paths[nm], bads[nm])
+                else:
+                    datum = delete_at(datum, paths[nm])
+            # expected reports: (outer trail, what)
+            expected = {(paths[nm], "bad:" + nm) for nm, kind in kinds.items() if kind == "wrong"}
+            missing_at = {}
+            for nm, kind in kinds.items():
+                if kind == "missing":
+                    missing_at.setdefault(paths[nm][:-1], set()).add(paths[nm][-1])
+            for crown, keys in missing_at.items():
+                expected.add((crown, "missing:" + ",".join(sorted(keys))))
+            levels = len({paths[nm][:-1] for nm in faulty})
+            case = {"suite": "flattened", "map": {nm: list(p) for nm, p in paths.items()}, "faults": kinds}
+            ctx.note_case(case, nontrivial=len(faulty) > 1, kind=f"flattened:{min(len(faulty), 3)}-faults:{min(levels, 3)}-levels")
+
+            def describe(trail, leaf):
+                if isinstance(leaf, NoRequiredFieldsLoadError):
+                    return (tuple(trail), "missing:" + ",".join(sorted(leaf.fields)))
+                for nm, b in bads.items():
+                    if getattr(leaf, "input_value", None) is b:
+                        return (tuple(trail), "bad:" + nm)
+                return (tuple(trail), f"other:{type(leaf).__name__}")
+            outs = {}
+            for m in DebugTrail:
+                try:
+                    retorts[m].load(datum, cls)
+                    outs[m] = None
+                except LoadError as e:
+                    outs[m] = e
+                except Exception as e:  # noqa: BLE001
+                    ctx.fail("flattened:unexpected-error", f"{type(e).__name__} while loading a faulty flattened layout [{m.name}]", case)
+                    outs[m] = False
+            if any(o is None for o in outs.values()):
+                ctx.fail("flattened:not-rejected", f"faulty input accepted under {[m.name for m, o in outs.items() if o is None]}", case)
+                continue
+            if any(o is False for o in outs.values()):
+                continue
+            got_all = [describe(t, leaf) for t, leaf in reports(outs[DebugTrail.ALL])]
+            if sorted(got_all) != sorted(expected):
+                lost = sorted(set(expected) - set(got_all))
+                extra = sorted(set(got_all) - set(expected))
+                dup = len(got_all) != len(set(got_all))
+                sig = "flattened:ALL:" + ("lost" if lost else "duplicate" if dup else "extra")
+                ctx.fail(sig, f"DebugTrail.ALL on a flattened layout: expected reports {sorted(expected)}, got {sorted(got_all)}", case)
+            got_first = [describe(t, leaf) for t, leaf in reports(outs[DebugTrail.FIRST])]
+            if len(got_first) != 1 or got_first[0] not in expected:
+                # FIRST may name only the keys missing... it names all keys missing in that mapping, like ALL
+                ctx.fail("flattened:FIRST", f"DebugTrail.FIRST on a flattened layout reports {got_first}; invalid leaves are "
+                         f"{sorted(expected)}", case)
+            if any_trail(outs[DebugTrail.DISABLE]):
+                ctx.fail("flattened:DISABLE-trail", "DebugTrail.DISABLE attached a trail", case)
+
+
 def dict_probe_specs(eng):
     tg = morph.TypeGen(eng.ctx.rng)
     k, v = tg.scalar("str"), tg.scalar("int")
@@ -362,6 +452,7 @@ def run(ctx: Ctx):
         if len(ctx.samples) < 4:
             ctx.sample({"hint": repr(spec.hint)[:120], "datum": repr(datum)[:200], "leaf_positions": [list(map(repr, p)) for p in pos[:6]]})
     renamed_layouts(ctx, ctx.budget(60, 1000))
+    flattened_multi_fault(ctx, ctx.budget(60, 1500))
 
 
 def _same_elems(a, b):
